@@ -421,6 +421,9 @@ func cmdCheck(args []string) int {
 						fmt.Fprintf(os.Stderr, "  replay %s violation %q -> %s\n", r.label, v.Msg, st)
 					}
 				} else {
+					if st == "not-run" {
+						continue // the batch was cut short (another case crashed it): no evidence either way
+					}
 					samplesReplayed++
 					if st == "ok" || st == "assume-false" {
 						samplesAgree++
@@ -442,6 +445,7 @@ func cmdCheck(args []string) int {
 	var lines []string
 	os.MkdirAll(filepath.Join(*verifDir, "evidence", "replay"), 0o755)
 	printedKnown := map[string]bool{}
+	witReached := map[string]*bool{}
 	for _, r := range runs {
 		if r.res == nil {
 			nIncon++
@@ -449,10 +453,12 @@ func cmdCheck(args []string) int {
 			continue
 		}
 		if r.wit {
-			// witness twin: every assertion site must be reachable
-			if len(r.res.Violations) == 0 {
-				nIncon++
-				lines = append(lines, fmt.Sprintf("INCONCLUSIVE property=%s obligation=%s reason=witness twin reached no assertion (vacuous harness)", id, r.label))
+			// witness twin: some run of the obligation must reach an assertion (checked below, per obligation)
+			if witReached[r.obl.ID] == nil {
+				witReached[r.obl.ID] = new(bool)
+			}
+			if len(r.res.Violations) > 0 {
+				*witReached[r.obl.ID] = true
 			}
 			continue
 		}
@@ -497,6 +503,12 @@ func cmdCheck(args []string) int {
 			lines = append(lines, fmt.Sprintf("VIOLATION property=%s replay=%s", id, path))
 			lines = append(lines, fmt.Sprintf("  obligation=%s kind=%s msg=%q native=%s", r.label, v.Kind, oneLine(v.Msg), v.Replayed))
 			exit = 1
+		}
+	}
+	for oid, ok := range witReached {
+		if !*ok {
+			nIncon++
+			lines = append(lines, fmt.Sprintf("INCONCLUSIVE property=%s obligation=%s reason=witness twin reached no assertion in any run (vacuous harness)", id, oid))
 		}
 	}
 	// vacuity guard: every cover label of an obligation must be reached by some run of it
